@@ -202,8 +202,11 @@ def build(P):
     saved_models = dict(P.class_models)
     C03.build(P)
     P.tasks[n0_:] = [t for t in P.tasks[n0_:] if t.name == "PerceptionFrameResult.evaluate_frame[detection metrics on]"]
+    # the pooled structure is scored by Ap: every result of every frame ranked exactly once, the caller's (= the manager's pooled) lists left as they are
+    import contracts.C04 as C04
+    C04.init_tasks(P)
     P.min_obligations = 40
     P.trust("copy.copy is a shallow copy into a new object (assumed)")
     P.assume("evaluate_frame writes only the object_results of its own frame result and the objects of the frame it was constructed with (its body: C03)")
-    P.uncover("scene score == score of the pooled frame results (get_scene_result, Ap flatten + sort), order independence for distinct confidences, "
+    P.uncover("scene score == score of the pooled frame results end to end (Map / MetricsScore wiring between get_scene_result and Ap), order independence for distinct confidences, "
               "determinism of the whole result as a function of the arguments: covered by the native harness only (bounded)")
